@@ -194,7 +194,8 @@ type sys struct {
 	// Replays the kernel accepted: the height must then be committed with a certificate the node holds.
 	replayAccepted []commitEvent
 
-	deferCalls bool
+	badJump, badJumpSig string
+	deferCalls          bool
 	deferred   []func(ctx context.Context) string
 
 	curEvent string
@@ -484,6 +485,16 @@ func (s *sys) readS() bool {
 	select {
 	case v := <-s.smOut:
 		s.sLog = append(s.sLog, smRecv{step: s.step, h: s.sm.h, r: s.sm.r, v: v})
+		if j := v.JumpAheadRoundView; j != nil && s.sm.entered {
+			// The real state machine panics (BUG) on a jump-ahead that does not move it forward within its height.
+			if j.Height != s.sm.h {
+				s.badJump = fmt.Sprintf("height-mismatch: state machine in %d/%d was sent a jump-ahead to %d/%d", s.sm.h, s.sm.r, j.Height, j.Round)
+				s.badJumpSig = "height-mismatch"
+			} else if j.Round <= s.sm.r {
+				s.badJump = fmt.Sprintf("round-not-greater: state machine in %d/%d was sent a jump-ahead to %d/%d", s.sm.h, s.sm.r, j.Height, j.Round)
+				s.badJumpSig = "round-not-greater"
+			}
+		}
 		s.smLearn(v.VRV, v.JumpAheadRoundView, v.CH)
 		return true
 	default:
